@@ -121,6 +121,9 @@ class G:
             opts = ["abc", " ", "#", "(", ")", "[", "]", "{", "}", "if", "def f():", "%s", ";", "x = 1", ":", ","]
             if kind != "b":
                 opts += ["é", "中"]
+            if self.flag("odd_separators"):
+                # characters str.splitlines() treats as line boundaries although Python's tokenizer does not
+                opts += ["\x0c", "\x0b", "\x1c"] + (["\x85", "\u2028"] if kind != "b" else [])
             if quote[0] == "'":
                 opts.append('"')
             else:
@@ -846,7 +849,7 @@ FLAGS = [
     "tabs", "multiline", "comments", "unicode_ident", "nfkc_ident", "softkw_names", "fancy_numbers", "fstrings", "prefixes",
     "pep701", "implicit_concat", "walrus", "redundant_parens", "backslash", "starred", "tuple1", "annotations", "posonly",
     "kwonly", "yield", "semicolons", "oneline_suites", "with_paren", "match", "pep695", "nonlocal", "try_star", "decorators",
-    "async", "class_kw", "docstring", "future",
+    "async", "class_kw", "docstring", "future", "odd_separators",
 ]
 
 
